@@ -20,7 +20,7 @@ TABLE = {
                 cone=["Model/Exec.v", "Model/ExecInv.v", "Model/StepExec.v", "Model/DepExec.v", "Model/Worker.v", "Proofs/ExecLive.v",
                       "Proofs/DepSafe.v", "Proofs/C04Proofs.v"], n=(70, 700)),
     "C05": dict(kinds=["block", "step", "dep", "cblock", "cstep", "ublock"], oracle=oracles.c05, cone=LIVE, n=(70, 700)),
-    "C06": dict(kinds=["block", "step", "dep", "cblock", "cstep", "fexec"], oracle=oracles.c06,
+    "C06": dict(kinds=["block", "step", "dep", "cblock", "cstep", "fexec", "cblockd"], oracle=oracles.c06,
                 cone=SAFE + ["Model/StepExec.v", "Model/FileExec.v", "Model/FileSpec.v", "Model/CacheExec.v", "Model/CacheSpec.v",
                              "Proofs/FileSafe.v", "Proofs/FileRefute.v", "Proofs/CacheSafe.v", "Proofs/CacheCancel.v"], n=(70, 700)),
     "C07": dict(kinds=["step", "dep", "block", "cstep"], oracle=oracles.c07,
